@@ -322,11 +322,19 @@ def idw(repo, rep):
                 v = v.args[0]
             if isinstance(v, ast.BinOp) and isinstance(v.op, ast.Div) and repo.const(fi.module, v.left) in (1, 1.0) and unparse(v.right).replace(" ", "") == f"sum({F})":
                 S = a_.targets[0].id
+    def is_norm(e):
+        # the normalising factor: the local holding it, or 1 / sum(F) written in place
+        if S and unparse(e) == S:
+            return True
+        v = e
+        while isinstance(v, ast.Call) and call_name(v) == "float" and v.args:
+            v = v.args[0]
+        return isinstance(v, ast.BinOp) and isinstance(v.op, ast.Div) and repo.const(fi.module, v.left) in (1, 1.0) and unparse(v.right).replace(" ", "") == f"sum({F})"
     scal = [(x, b_) for x in ast.walk(masks[0]) if isinstance(x, ast.If) for b_ in x.body
-            if isinstance(b_, ast.AugAssign) and isinstance(b_.op, ast.Mult) and S and unparse(b_.value) == S]
+            if isinstance(b_, ast.AugAssign) and isinstance(b_.op, ast.Mult) and is_norm(b_.value)]
     unguarded = [b_ for o in masks[0].orelse for b_ in ([o] if isinstance(o, ast.AugAssign) else [])
-                 if isinstance(b_.op, ast.Mult) and S and unparse(b_.value) == S]
-    if S and (scal or unguarded):
+                 if isinstance(b_.op, ast.Mult) and is_norm(b_.value)]
+    if scal or unguarded:
         g = unparse(scal[0][0].test).replace(" ", "") if scal else "True"
         if g in (f"len({I})>0", f"len({I})>=1", f"0<len({I})", f"1<=len({I})", f"{I}", "True"):
             rep.ok("R-C14-4", f"{fi.file}:{masks[0].lineno} sel_idw", "weighted *= 1/sum(factors) when more than one term", "convex combination")
@@ -355,10 +363,13 @@ def tolerance(repo, rep):
                 dn = unparse(s.value.func.value)
                 dsrc = [a for a in loop.body if isinstance(a, ast.Assign) and unparse(a.targets[0]) == dn and isinstance(a.value, ast.Call)
                         and isinstance(a.value.func, ast.Attribute) and a.value.func.attr == "distance"]
+                recv = s.value.func.value
+                if isinstance(recv, ast.Call) and isinstance(recv.func, ast.Attribute) and recv.func.attr == "distance":
+                    dsrc = [s]                 # coords.distance(..).argmin() without a temporary
                 if dsrc:
                     cid = s.targets[0].id
                     for a in loop.body:
-                        if isinstance(a, ast.Assign) and isinstance(a.targets[0], ast.Name) and unparse(a.value).replace(" ", "") == f"{dn}[{cid}]":
+                        if isinstance(a, ast.Assign) and isinstance(a.targets[0], ast.Name) and unparse(a.value).replace(" ", "") == f"{dn}[{cid}]".replace(" ", ""):
                             cdist = a.targets[0].id
                             inline_nearest = True
     if cid is None or cdist is None:
